@@ -7,7 +7,7 @@ WT=/tmp/seedwt_$NAME
 rm -rf "$WT"; git -C /repo worktree prune
 git -C /repo worktree add --detach "$WT" HEAD >/dev/null 2>&1 || { echo "$NAME worktree failed"; exit 3; }
 LOG="$DIR/confirm.log"; : > "$LOG"
-LIBS="-lopenblas -llapack -lfftw3 -lboost_serialization"
+LIBS="-lopenblas -llapack -lfftw3 -lboost_serialization"; grep -q "<execution>" "$DIR/demo.cpp" && LIBS="$LIBS -ltbb"
 NDBG="-DNDEBUG"; grep -qE "^#[ ]*error" "$DIR/demo.cpp" && grep -q "NDEBUG" "$DIR/demo.cpp" && NDBG=""; grep -q '"demo_needs_assertions": *true' "$DIR/meta.json" 2>/dev/null && NDBG=""; CXX=g++; grep -q "mpi.h\|adaptors/mpi" "$DIR/demo.cpp" && CXX=mpicxx
 export OMPI_ALLOW_RUN_AS_ROOT=1 OMPI_ALLOW_RUN_AS_ROOT_CONFIRM=1 OPENBLAS_NUM_THREADS=1
 # demo without the change
